@@ -24,11 +24,13 @@ type Run struct {
 	Active map[int]bool // wallets the wallet manager is expected to know (created/imported, not removed)
 	Issued map[int][]string
 	Lines  []string // the history as this replay executed it (format of internal/hist)
+	Seen     map[wire.Hash]bool // blocks that have been on the wallet's synced chain
 	Attached map[int]bool // blocks the node has connected at some time
 	NodeDone []bool // node operations already performed (the node moved on while the wallet was down)
 	Stale  bool
 	nq     int
 	Restarts int
+	WaitLimit time.Duration
 	TipBefore wire.Hash // stored tip found by the last Open before Start ran
 	tipKnown  bool      // the last Open got as far as reading the stored tip
 }
@@ -46,7 +48,7 @@ func NewRun(s *Script) (*Run, error) {
 		os.RemoveAll(dir)
 		return nil, err
 	}
-	r := &Run{S: s, Dir: dir, N: node, Active: map[int]bool{}, Issued: map[int][]string{}, Attached: map[int]bool{}, NodeDone: make([]bool, len(s.Ops))}
+	r := &Run{S: s, Dir: dir, N: node, Active: map[int]bool{}, WaitLimit: 30 * time.Second, Issued: map[int][]string{}, Seen: map[wire.Hash]bool{}, Attached: map[int]bool{}, NodeDone: make([]bool, len(s.Ops))}
 	r.Lines = append(r.Lines, s.Header...)
 	return r, nil
 }
@@ -175,6 +177,7 @@ func (r *Run) Exec(i int) Outcome {
 				r.W.Notify(r.N.Tip())
 				if best := r.W.H.VerifBest(); best.Hash == *r.N.Tip().Hash() {
 					r.emit("P %d ok", r.S.Gen.CfBlockID(r.N.Tip()))
+					r.markSeen(r.N.Tip())
 					r.Stale = false
 				} else {
 					r.emit("P %d err", r.S.Gen.CfBlockID(r.N.Tip()))
@@ -214,6 +217,7 @@ func (r *Run) Exec(i int) Outcome {
 			best := r.W.H.VerifBest()
 			if best.Hash == *op.Blk.Hash() {
 				out.Val = "ok"
+				r.markSeen(op.Blk)
 			} else {
 				out.Val = "err"
 				out.Err = fmt.Errorf("announcement of block %d not accepted", op.BlkID)
@@ -225,7 +229,7 @@ func (r *Run) Exec(i int) Outcome {
 		out.Done = r.guard(func() { r.Query() })
 	case OpWait:
 		out.Done = r.guard(func() {
-			if !r.W.WaitTasks(30 * time.Second) {
+			if !r.W.WaitTasks(r.WaitLimit) {
 				out.Err = fmt.Errorf("background tasks did not finish")
 			}
 		})
